@@ -230,7 +230,8 @@ def cases(tier, seed):
     for v in vecs:
         out.append({"id": "h5:" + vec_id(v), "kind": "h5", "v": v})
     for f in FIELDS:
-        types = (["np.float64", "int", "np.float32", "np.int64", "0d-array"]
+        types = (["np.float64", "int", "np.float32", "np.int64", "0d-array",
+                  "zero"]
                  if f != "illum_polarization" else
                  ["list", "ndarray", "3-vector", "unnormalised", "int-tuple"])
         for t in types:
@@ -538,7 +539,8 @@ def _run_h5val(case, ck, d):
     f, t = case["field"], case["type"]
     base = SCALAR[f]
     val = {"np.float64": lambda: np.float64(base),
-           "int": lambda: 2, "np.float32": lambda: np.float32(1.5),
+           "int": lambda: 2, "zero": lambda: 0.0,
+           "np.float32": lambda: np.float32(1.5),
            "np.int64": lambda: np.int64(2),
            "0d-array": lambda: xr.DataArray(np.float64(base)),
            "list": lambda: [0, 1], "ndarray": lambda: np.array([1.0, 1.0]),
@@ -658,6 +660,9 @@ def _tiff_one(ck, d, tag, im, scaling, depth, route, bylabel, multi):
     lo0, hi0 = float(v0.min()), float(v0.max())
     if scaling == "wide":
         sc = (int(math.floor(lo0)) - 10, int(math.ceil(hi0)) + 45)
+        if im.dtype.kind in "iu":      # bounds representable in the dtype
+            info = np.iinfo(im.dtype)
+            sc = (max(sc[0], int(info.min)), min(sc[1], int(info.max)))
     elif scaling == "minmax":
         sc = (lo0, hi0)
     else:
